@@ -202,10 +202,11 @@ let with_fallback fx b =
 
 let run (t : string list) : string =
   match t with
-  | ["parse_cmd"; h] -> with_fallback false (bytes_of_hex h)
+  | ["parse_cmd"; h] -> with_fallback Params.query_numeric_fallible (bytes_of_hex h)
+  | ["parse_old"; h] -> with_fallback false (bytes_of_hex h)
   | ["parse_fix"; h] -> with_fallback true (bytes_of_hex h)
   | ["parse_disp"; h] ->
-      (match Command.parse_command false (bytes_of_hex h) with
+      (match Command.parse_command_cur (bytes_of_hex h) with
        | Command.POk (Command.CStore (_, _, json)) -> "S " ^ hs json   (* JSON validity is decided in the comparison *)
        | Command.POk c -> if Command.dispatch_handled (Command.kind_of c) then "RESP" else "PANIC"
        | Command.PErr -> "NOPARSE"
